@@ -281,7 +281,7 @@ func (c *Cluster) applyEntries(n *Node, ents []*pb.Entry) {
 			c.mon.afterOp(n, "applycc")
 			// a snapshot at the applied index after each membership change lets joiners catch up
 			if c.rng.Intn(4) != 0 {
-				c.snapshotNode(n)
+				c.snapshotNode(n, 0)
 			}
 			continue
 		}
@@ -289,12 +289,17 @@ func (c *Cluster) applyEntries(n *Node, ents []*pb.Entry) {
 	}
 }
 
-func (c *Cluster) snapshotNode(n *Node) {
+// snapshotNode: the application takes a snapshot at an applied index (back entries behind its
+// latest applied one).
+func (c *Cluster) snapshotNode(n *Node, back uint64) {
 	snap, _ := n.st.Snapshot()
 	li, _ := n.st.LastIndex()
 	// Env.snapshot_sound: only at an applied index that the durable commit index covers,
 	// with the configuration as of that index
 	i := n.app.applied
+	if back < i {
+		i -= back
+	}
 	hs, _, _ := n.st.InitialState()
 	if c := hs.GetCommit(); c < i {
 		i = c
